@@ -709,7 +709,7 @@ class Mat:
         self.cols = {}                      # (segname, col) -> element at generic row of that segment
         self.init = init                    # callable(seg, col) -> initial element (default: uninterpreted old value)
         self.written = []                   # log of (segname, col)
-        self.scatter = []                   # [(space, idx_z, col, value_e)] writes through index arrays
+        self.scatter = []                   # [(space, idx_z, col, value_e, mask)] writes through index arrays
         self.seg_masks = {}                 # segname -> mask over the segment's table space: the block holds the rows of the mask
         self.oid = fresh_id()
 
@@ -775,11 +775,21 @@ class Mat:
                 if len(self.segments) != 1:
                     raise EngineError("gather from a multi-segment matrix")
                 s = next(iter(self.segments))
-                # last matching scatter write wins
-                for sp, idx, c, v in reversed(self.scatter):
-                    if c == col and sp is rows.space and z3.eq(z3.simplify(idx), z3.simplify(to_z(rows.e, I))):
-                        return Arr(rows.space, v, rows.mask)
-                return Arr(rows.space, subst(self.get(s, col), self.segments[s].i, to_z(rows.e, I)), rows.mask)
+                # last matching scatter write wins; a write through a compressed index array only reaches the rows of its mask
+                want = z3.simplify(to_z(rows.e, I))
+                hits = []
+                for sp, idx, c, v, m in reversed(self.scatter):
+                    if c == col and sp is rows.space and z3.eq(z3.simplify(idx), want):
+                        hits.append((m, v))
+                        if m is True:
+                            break
+                if hits and hits[-1][0] is True:
+                    res = hits.pop()[1]
+                else:
+                    res = subst(self.get(s, col), self.segments[s].i, to_z(rows.e, I))
+                for m, v in reversed(hits):
+                    res = scalar_ite(SV(m), v, res)
+                return Arr(rows.space, res, rows.mask)
             if isinstance(rows, Arr) and _is_boolish(rows.e):
                 for s, sp in self.segments.items():
                     if sp is rows.space:
@@ -874,11 +884,13 @@ class Mat:
                 if val.space is not rows.space:
                     raise EngineError("scatter store: value lives in another row space than the index array")
                 require_same_mask(it, val.mask, rows.mask, "scatter store")
+            elif type(val).__name__ == "Opaque":
+                pass        # an unknown value reaches the addressed rows (and only those)
             elif not is_scalar(val):
                 raise EngineError("scatter store value")
             if it.ctx.merge_mode:
                 raise CannotMerge()
-            self.scatter.append((rows.space, to_z(rows.e, I), col, v))
+            self.scatter.append((rows.space, to_z(rows.e, I), col, v, rows.mask))
             self.written.append(("scatter:" + rows.space.name, col))
             return
         if isinstance(rows, Arr) and _is_boolish(rows.e):
@@ -893,7 +905,7 @@ class Mat:
                 raise EngineError("single-row store of a non-scalar")
             if it.ctx.merge_mode:
                 raise CannotMerge()
-            self.scatter.append((None, to_z(rows, I), col, val))
+            self.scatter.append((None, to_z(rows, I), col, val, True))
             self.written.append(("row", col))
             return
         raise EngineError(f"ppc matrix store with rows {type(rows).__name__}")
@@ -903,17 +915,26 @@ class Mat:
         Index expressions are matched semantically (equal under the path condition); stores through index
         expressions that are not provably equal are assumed to address other rows (A-LOOKUP injectivity)."""
         want = z3.simplify(to_z(idx_e, I))
-        for sp, idx, c, v in reversed(self.scatter):
+        hits = []
+        for sp, idx, c, v, m in reversed(self.scatter):
             if c != col:
                 continue
             if not (sp is space or sp is None or space is None):
                 continue
             if z3.eq(z3.simplify(idx), want) or (it is not None and _provably_equal(it, idx, want)):
-                return v
-        if len(self.segments) == 1:
+                hits.append((m, v))
+                if m is True:
+                    break
+        if hits and hits[-1][0] is True:
+            res = hits.pop()[1]
+        elif len(self.segments) == 1:
             s = next(iter(self.segments))
-            return subst(self.get(s, col), self.segments[s].i, to_z(idx_e, I))
-        raise EngineError("row_of on a multi-segment matrix")
+            res = subst(self.get(s, col), self.segments[s].i, to_z(idx_e, I))
+        else:
+            raise EngineError("row_of on a multi-segment matrix")
+        for m, v in reversed(hits):
+            res = scalar_ite(SV(m), v, res)      # a write through a compressed index array only reaches the rows of its mask
+        return res
 
     def sym_len(self, it):
         return SV(z3.Int(f"rows[{self.name}]"))
